@@ -39,7 +39,7 @@ def rules_for(prop):
         "C18": [cont.rule_csv_tables, cont.rule_csv_merge, cont.rule_dp7],
         "C19": [cont.rule_ag7, io.rule_framing, io.rule_codec, io.rule_compression],
         "C20": [cont.rule_pu2, seq.rule_dp6],
-        "C06": [named(grp.rule_eq1, files=("rxsci/data/split.py",), min_instances=7), named(grp.rule_fw1, heads=("split",)), grp.rule_dp4,
+        "C06": [named(grp.rule_eq1, files=("rxsci/data/split.py",), min_instances=1), named(grp.rule_fw1, heads=("split",)), grp.rule_dp4,
                 named(lv.rule_lv, only=("split_mux._split.on_subscribe",))],
         "C07": [grp.rule_time_split, named(grp.rule_fw1, heads=("time_split",)),
                 named(lv.rule_lv, only=("time_split_mux._time_split.on_subscribe",))],
